@@ -37,7 +37,7 @@ def build_exec_harness(variant='ts-asan', ts=True, san='asan', heaptrack=False, 
     h = build.link_harness(v, os.path.join(v['dir'], 'h_exec'),
                            [os.path.join(NATIVE, 'h_exec.c'), os.path.join(NATIVE, 'seam.c')],
                            extra_cflags=cf,
-                           extra_ld=['-L' + os.path.dirname(rec), '-lrec', '-Wl,-rpath,' + os.path.dirname(rec)])
+                           extra_ld=['-L' + os.path.dirname(rec), '-lrec', '-Wl,-rpath,' + os.path.dirname(rec)] + (['-Wl,--wrap=malloc,--wrap=calloc,--wrap=realloc,--wrap=free,--wrap=strdup,--wrap=strndup,--wrap=getline'] if heaptrack else []))
     v['h_exec'] = h
     return v
 
